@@ -520,8 +520,8 @@ func plCompare(cs *plCase, pat string, g *plGo, lean string, o *core.Outcome) *c
 		}
 	}
 	wf, _ := plField(items, "wf")
-	if strings.TrimSpace(wf) != "1 1 1 1" {
-		return bad("Pl:wf", "treeWf of the reduced tree / wfProg of the compiled programs / okN of the raw tree (hypothesis of Props.C01.reduceTree_wf_partial) does not hold", "(wf 1 1 1 1)", "(wf"+wf+")")
+	if strings.TrimSpace(wf) != "1 1 1 1 1" {
+		return bad("Pl:wf", "treeWf of the reduced tree / wfProg of the compiled programs / okN of the raw tree (hypothesis of Props.C01.reduceTree_wf_partial) / RawShapeOk and PrescanAgrees of the parse result (hypotheses of Props.C10.compile_and_run_no_fault_partial) does not hold", "(wf 1 1 1 1 1)", "(wf"+wf+")")
 	}
 	return nil
 }
@@ -564,7 +564,7 @@ var plCorpus = func() []plCase {
 func plLeg(c *core.Ctx, quick, thorough int) {
 	core.RunLeg(c, core.Leg[plCase]{
 		Name: "Pl", Kind: "correspondence", Batch: 300,
-		Rule:   "patterns: leg Pr's generator (printed random full-syntax ASTs, their mutations, harvested literals, metacharacter and snippet concatenations for every parser branch and ErrorCode; options: the generator's own or a random subset of the 9 bits; MaintainCaptureOrder in a fifth) alternating with leg Wr's (quantifier shape grammar, towers, fragment and full ASTs; 15 option sets), after a corpus of ~75 reducer shapes under 5 option sets. Compared, stage by stage: (a) Lean Reduce.reduceTree(Parser.parse p) == syntax.Parse(p).Root exactly (node type, RightToLeft/IgnoreCase bits, Ch, Str, set by structure, M, N, children), with syntax.VerifDisableRewrites (key Pl:reduce:<node>) and without (Pl:final:<node>); (b) Lean compilePattern p == regexp2.VerifCode(regexp2.Compile p): Codes, Strings, Sets, TrackCount, Capsize, Caps, RightToLeft, CaptureSlotInUse, QuickCodes (Pl:code:<part>), or the same ErrorCode (Pl:outcome); treeWf of the reduced tree, wfProg of both programs and okN of the raw tree — the hypothesis of Props.C01.reduceTree_wf_partial — (Pl:wf). Oracle rows: CharIn / MayOverlap / IsWordChar / IsECMAWordChar from the real functions for the sets and characters of the three Go trees. Residue bucket (no tolerance elsewhere): the Lean tree contains the sentinel class of canonicalize's third normal form. non-trivial = more than two node types in the reduced tree; distinct by (pattern, options)",
+		Rule:   "patterns: leg Pr's generator (printed random full-syntax ASTs, their mutations, harvested literals, metacharacter and snippet concatenations for every parser branch and ErrorCode; options: the generator's own or a random subset of the 9 bits; MaintainCaptureOrder in a fifth) alternating with leg Wr's (quantifier shape grammar, towers, fragment and full ASTs; 15 option sets), after a corpus of ~75 reducer shapes under 5 option sets. Compared, stage by stage: (a) Lean Reduce.reduceTree(Parser.parse p) == syntax.Parse(p).Root exactly (node type, RightToLeft/IgnoreCase bits, Ch, Str, set by structure, M, N, children), with syntax.VerifDisableRewrites (key Pl:reduce:<node>) and without (Pl:final:<node>); (b) Lean compilePattern p == regexp2.VerifCode(regexp2.Compile p): Codes, Strings, Sets, TrackCount, Capsize, Caps, RightToLeft, CaptureSlotInUse, QuickCodes (Pl:code:<part>), or the same ErrorCode (Pl:outcome); treeWf of the reduced tree, wfProg of both programs, okN of the raw tree — the hypothesis of Props.C01.reduceTree_wf_partial — and RawShapeOk / PrescanAgrees of the parse result — the hypotheses of Props.C10.compile_and_run_no_fault_partial — (Pl:wf). Oracle rows: CharIn / MayOverlap / IsWordChar / IsECMAWordChar from the real functions for the sets and characters of the three Go trees. Residue bucket (no tolerance elsewhere): the Lean tree contains the sentinel class of canonicalize's third normal form. non-trivial = more than two node types in the reduced tree; distinct by (pattern, options)",
 		Corpus: plCorpus, N: c.N(quick, thorough), Gen: plGen, Check: plCheck,
 	})
 }
